@@ -66,6 +66,13 @@ def direct_calls(M, rec, rng, reps):
         N = rng.choice((1, 1, 2, 3, 5))
         rho = [rho_val(rng, p) for _ in range(N)]
         v = [v_val(rng, p) for _ in range(N)]
+        intmode = side == "numpy" and rng.random() < 0.15
+        if intmode:  # whole-number states handed over as integer arrays
+            rho = [float(round(x)) for x in rho]
+            v = [float(round(x)) for x in v]
+            rec.count("direct_calls_with_integer_vectors")
+        _vec = vec
+        vec_ = (lambda xs, sd: (np.array(xs).astype(np.int64) if (intmode and all(float(t).is_integer() for t in xs)) else _vec(xs, sd)))
         prim = rng.choice((
             "get_upstream_flow", "get_upstream_speed", "get_downstream_density", "get_flow", "step_density",
             "step_speed", "Veq", "controlled_Veq", "step_queue", "get_mainstream_flow", "get_ramp_flow",
@@ -95,11 +102,11 @@ def direct_calls(M, rec, rng, reps):
                     rf[0] = 1.0
                 E.NodesEngine.get_downstream_density(vec(rf, side))
             elif prim == "get_flow":
-                E.LinksEngine.get_flow(vec(rho, side), vec(v, side), p["lam"])
+                E.LinksEngine.get_flow(vec_(rho, side), vec_(v, side), p["lam"])
             elif prim == "step_density":
                 q = [a * b * p["lam"] for a, b in zip(rho, v)]
                 qu = [rng.uniform(0, 6000) for _ in range(N)]
-                E.LinksEngine.step_density(vec(rho, side), vec(q, side), vec(qu, side), p["lam"], p["L"], T)
+                E.LinksEngine.step_density(vec_(rho, side), vec(q, side), vec(qu, side), p["lam"], p["L"], T)
             elif prim == "step_speed":
                 vu = [v_val(rng, p) for _ in range(N)]
                 rd = [rho_val(rng, p) for _ in range(N)]
@@ -116,13 +123,13 @@ def direct_calls(M, rec, rng, reps):
                 if rng.random() < 0.15:
                     phi = None
                 rec.seen("optional_combos", ("step_speed", q_ramp is not None, delta is not None, ld is not None, phi is not None))
-                E.LinksEngine.step_speed(vec(v, side), vec(vu, side), vec(rho, side), vec(rd, side), vec(Ve, side),
+                E.LinksEngine.step_speed(vec_(v, side), vec(vu, side), vec_(rho, side), vec(rd, side), vec(Ve, side),
                                          p["lam"], p["L"], 18 / 3600, 60.0, 40.0, T, q_ramp, delta, ld, phi, rc)
             elif prim == "Veq":
                 if rng.random() < 0.3:
                     E.LinksEngine.Veq(s(rho[0]), p["v_free"], p["rho_crit"], p["a"])
                 else:
-                    E.LinksEngine.Veq(vec(rho, side), p["v_free"], p["rho_crit"], p["a"])
+                    E.LinksEngine.Veq(vec_(rho, side), p["v_free"], p["rho_crit"], p["a"])
             elif prim == "controlled_Veq":
                 vsl = sorted(rng.sample(range(N), rng.randint(0, N)))
                 vc = []
@@ -130,7 +137,7 @@ def direct_calls(M, rec, rng, reps):
                     V = R.veq(rho[i], p["v_free"], p["rho_crit"], p["a"])
                     vc.append(rng.choice((rng.uniform(10, 70), 200.0, math.inf, 0.0, V / 1.1, V)))
                 rec.seen("optional_combos", ("controlled_Veq", min(len(vsl), 2), N == len(vsl)))
-                E.LinksEngine.controlled_Veq(vec(rho, side), vec(vc, side), vsl, 0.1, p["v_free"], p["rho_crit"], p["a"])
+                E.LinksEngine.controlled_Veq(vec_(rho, side), vec(vc, side), vsl, 0.1, p["v_free"], p["rho_crit"], p["a"])
             elif prim == "step_queue":
                 E.OriginsEngine.step_queue(s(rng.choice((0.0, rng.uniform(0, 500)))), s(rng.uniform(0, 5000)),
                                            s(rng.uniform(0, 5000)), T)
